@@ -10,7 +10,7 @@
      Inv s              parent n = Some p <-> n in children p, child lists duplicate free, acyclic, ... *)
 From Coq Require Import List NArith Bool.
 From HV Require Import Dom.DomSpec RcDom.RcModel RcDom.RcBasics RcDom.RcInv RcDom.RcProofs
-                       RcDom.RcSerialize RcDom.RcClone.
+                       RcDom.RcSerialize RcDom.RcClone RcDom.RcContract.
 Import ListNotations.
 
 (* FULL STATEMENT (refuted, see C20_refines_refuted / C20_selectedcontent_refuted):
@@ -52,6 +52,14 @@ Proof.
   exists s. split; [exact R|]. split; [exact (i_parent s I)|]. split; [exact (i_nodup s I)|exact (i_acyclic s I)].
 Qed.
 Print Assumptions C20_parent_links.
+
+(* the contract's cycle test (a fuelled walk to the root that says "yes" when the
+   fuel runs out) is exact on every state the model can reach: the contract is
+   not stricter than "the node is not the new parent or one of its ancestors" *)
+Theorem C20_contract_cycle_check_exact :
+  forall s, Inv s -> forall c p, in_subtree (abs s) c p = true <-> AncS s c p.
+Proof. exact in_subtree_exact. Qed.
+Print Assumptions C20_contract_cycle_check_exact.
 
 (* serializing the document (ChildrenOnly, as html5ever::serialize does) emits the
    events of the tree reachable through the child lists: every node below the
